@@ -3,6 +3,7 @@ import ast
 
 from ..common import norm_stmt, site_id
 from ..deps import names_in, base_name, index_names
+from ..astutil import FuncTree
 from ..index import AnalysisError
 from ..paths import MustAnalysis, describe, local_names
 from . import c01
@@ -90,6 +91,10 @@ class MaskFlow(MustAnalysis):
                     return "raw"
                 if "masked" in parts:
                     return "masked"
+            # any other call: a value computed from a statistic over ALL rows carries its influence
+            parts = [self.expr_state(a, tokens) for a in list(e.args) + [k.value for k in e.keywords]]
+            if "stat" in parts:
+                return "stat"
             return "none"
         if isinstance(e, ast.IfExp):
             parts = {self.expr_state(e.body, tokens), self.expr_state(e.orelse, tokens)}
@@ -152,6 +157,14 @@ class MaskFlow(MustAnalysis):
             states = [(a, self.expr_state(a, state.tokens)) for a in args]
             is_fit = self._is_estimator_fit(n)
             has_masked = any(s == "masked" for _, s in states)
+            kw = self.fnode.args.kwarg.arg if self.fnode.args.kwarg is not None else None
+            if kw and not is_fit and any(kw in names_in(a) for a in args) and (c01.callname(n) or "") not in ("dict", "len"):
+                for a, s_ in states:
+                    if s_ == "raw":
+                        self.sinks += 1
+                        self._report(n, a, state, f"the caller's **{kw} are processed together with the unmasked per-sample "
+                                                  f"array (what reaches the estimator then depends on the number of ALL rows, "
+                                                  f"e.g. sklearn's same-length-as-X heuristic)")
             if is_fit or has_masked:
                 if c01.callname(n) in ("is_labeled", "is_unlabeled", "len", "sum", "check_consistent_length"):
                     continue
@@ -200,6 +213,15 @@ class MaskFlow(MustAnalysis):
                     self._report(stmt, raw[0], state, f"statistic self.{t.attr} computed from all rows")
                 elif self.masked_reads(stmt.value, state.tokens):
                     self.sinks += 1
+            if isinstance(t, ast.Subscript) and isinstance(t.value, ast.Attribute) and isinstance(t.value.value, ast.Name) \
+                    and t.value.value.id == "self":
+                s = self.expr_state(stmt.value, state.tokens)
+                raw = self.unmasked_reads(stmt.value, state.tokens)
+                if s == "stat" or raw:
+                    self.sinks += 1
+                    self._report(stmt, raw[0] if raw else stmt.value, state,
+                                 f"self.{t.value.attr}[...] keeps a value computed from ALL rows (a statistic of the unlabeled "
+                                 f"samples' features / weights shapes the model)")
             if isinstance(t, ast.Subscript) and isinstance(t.slice, ast.Constant) and t.slice.value == "sample_weight":
                 s = self.expr_state(stmt.value, state.tokens)
                 self.sinks += 1
@@ -350,6 +372,34 @@ def run(p, report, tier):
             report.add("R12.1", ent, f"all training sinks masked by {sorted(mf.mask_names)}", f"{f.file}:{f.node.lineno}",
                        mf.sinks > 0, detail=f"{mf.sinks} sink evaluations, all restricted to labeled rows"
                        if mf.sinks else "no training sink found (estimator fit / stored data)")
+    report.rule("R12.8", "the NUMBER of rows handed to fit (labeled and unlabeled together) never enters the model: the length "
+                "of the labeled mask (`len(m)`, `m.size`, `m.shape[0]`) is not an operand of arithmetic in the fit functions - a "
+                "tolerance / learning rate / prior scaled by it makes the fitted model depend on how many unlabeled rows "
+                "accompany the labeled ones", floor=4)
+    for cname, mname in TARGETS:
+        ci = p.get_class(cname)
+        f = ci.methods.get(mname)
+        mf = MaskFlow(f.node, f"{cname}.{mname}", report, f.file)
+        tree_ = FuncTree(f.node)
+        bad = None
+        n_sz = 0
+        for e in ast.walk(f.node):
+            is_size = (isinstance(e, ast.Call) and (c01.callname(e) or "") in ("len", "size") and e.args
+                       and isinstance(e.args[0], ast.Name) and e.args[0].id in mf.mask_names) \
+                or (isinstance(e, ast.Attribute) and e.attr == "size" and isinstance(e.value, ast.Name) and e.value.id in mf.mask_names) \
+                or (isinstance(e, ast.Subscript) and isinstance(e.value, ast.Attribute) and e.value.attr == "shape"
+                    and isinstance(e.value.value, ast.Name) and e.value.value.id in mf.mask_names)
+            if not is_size:
+                continue
+            n_sz += 1
+            par = tree_.parent.get(e)
+            if isinstance(par, (ast.BinOp, ast.AugAssign)) and bad is None:
+                bad = par
+        report.add("R12.8", f"{cname}.{mname}", "the total number of rows is no operand of the fit arithmetic",
+                   f"{f.file}:{(bad or f.node).lineno}", bad is None, nontrivial=n_sz > 0,
+                   detail=f"{n_sz} size read(s) of the labeled mask, none in arithmetic" if bad is None else
+                   f"`{ast.unparse(bad)[:70]}` computes with the length of the labeled MASK, i.e. the number of all rows including "
+                   f"the unlabeled ones: adding unlabeled rows changes the result of fit")
     for cname in ("ParzenWindowClassifier", "MixtureModelClassifier"):
         f = p.get_class(cname).methods.get("fit")
         if f is None:
